@@ -238,6 +238,26 @@ theorem grows_testPass (G : Graph) (fuel : Nat) : ∀ (ts : List Nat), Grows G (
         rw [if_neg ht] at h
         exact ih.2 s h
 
+theorem grows_testFix (G : Graph) (fuel : Nat) : ∀ (k : Nat), Grows G (testFix G fuel k) := by
+  intro k
+  induction k with
+  | zero => exact ⟨fun _ _ => rfl, fun s h => by simp [testFix] at h⟩
+  | succ k ih =>
+    have hp := grows_testPass G fuel G.nodes
+    refine ⟨fun s h => ?_, fun s h => ?_⟩
+    · simp only [testFix]
+      split
+      · exact ih.1 _ (hp.1 s h)
+      · exact hp.1 s h
+    · simp only [testFix] at h ⊢
+      split
+      · rename_i hc
+        rw [if_pos hc] at h
+        exact (hp.comp ih).2 s h
+      · rename_i hc
+        rw [if_neg hc] at h
+        exact hp.2 s h
+
 /-! ### the keep set -/
 
 /-- an initial root of `targetsToRemove` -/
@@ -272,21 +292,21 @@ theorem keepSet_spec (G : Graph) (Q : Query) (h : (keepSet G Q).oof = false) :
   let f1 := fun s : KSt => (G.nodes.filter (isRoot G Q)).foldl (fun s t => addTarget G fuel s t) s
   let f2 := fun s : KSt => Q.subincs.foldl (fun s t => addTarget G fuel s t) s
   let f3 := fun s : KSt => Q.args.foldl (fun s t => addTarget G fuel s t) s
-  let f4 := fun s : KSt => if Q.includeTests then s else testPass G fuel G.nodes s
+  let f4 := fun s : KSt => if Q.includeTests then s else testFix G fuel fuel s
   have g1 := grows_foldl G fuel (G.nodes.filter (isRoot G Q))
   have g2 := grows_foldl G fuel Q.subincs
   have g3 := grows_foldl G fuel Q.args
   have g4 : Grows G f4 := by
     refine ⟨fun s h => ?_, fun s h => ?_⟩
-    · show (if Q.includeTests then s else testPass G fuel G.nodes s).oof = true
+    · show (if Q.includeTests then s else testFix G fuel fuel s).oof = true
       split
       · exact h
-      · exact (grows_testPass G fuel G.nodes).1 s h
-    · have h' : (if Q.includeTests then s else testPass G fuel G.nodes s).oof = false := h
-      show ANew G s (if Q.includeTests then s else testPass G fuel G.nodes s)
+      · exact (grows_testFix G fuel fuel).1 s h
+    · have h' : (if Q.includeTests then s else testFix G fuel fuel s).oof = false := h
+      show ANew G s (if Q.includeTests then s else testFix G fuel fuel s)
       split
       · exact ANew.refl ..
-      · rename_i hc; rw [if_neg hc] at h'; exact (grows_testPass G fuel G.nodes).2 s h'
+      · rename_i hc; rw [if_neg hc] at h'; exact (grows_testFix G fuel fuel).2 s h'
   let s0 : KSt := { keep := [] }
   have hfin : (f4 (f3 (f2 (f1 s0)))).oof = false := h
   have o3 : (f3 (f2 (f1 s0))).oof = false := by
